@@ -11,8 +11,8 @@ import (
 
 func init() {
 	register(&PropertyDef{
-		ID:    "C09",
-		Title: "Concurrent sends never reuse a counter, key or nonce; chain only moves forward",
+		ID:          "C09",
+		Title:       "Concurrent sends never reuse a counter, key or nonce; chain only moves forward",
 		Explanation: "Decides, for every schedule at once, the locking and arithmetic shape that makes counters unique: (D1) in SealEnvelope the read of the own chain key, the sealing (secretbox.Seal, Sign), the write of the next precomputed key and the write of the advanced chain key all happen with the secret store's message mutex write-held, acquired once before the first of them, with no release of that mutex anywhere in the code reachable from those steps; (D3) every Put on the chain-key namespace that can overwrite an existing entry is reached only on call paths holding that write lock (creation puts, dominated by the 'no chain key stored' outcome of a lookup, are exempt: they cannot overwrite); (D4) the updater of the stored chain key is monotone: evaluated abstractly over the orderings {new<stored, new=stored, new>stored} it never writes when new<stored and always writes when new>stored; (D6) the own chain key is looked up, generated on a miss and stored inside one write-locked critical section; the updater fails when it cannot read the stored key; (D5) the counter sealed into the headers and used as nonce is the stored counter + 1 and the chain key stored afterwards carries stored counter + 1 (same increment on both sides). Not decided: that every envelope opens at a receiver (C01/C02), behaviour under real parallel runs, datastore atomicity.",
 		Trusted:     []string{"go/ssa (x/tools v0.29.0)", "sync.RWMutex semantics", "lock identity by owner type + field (one message mutex per secret store)"},
 		Assumptions: []string{"a secret store is not shared between two datastores; the datastore's Put is atomic per key"},
